@@ -5,3 +5,4 @@ import Helm.Props.C11
 import Helm.Props.C10
 import Helm.Props.C18
 import Helm.Props.C16
+import Helm.Props.C19
